@@ -5,7 +5,7 @@ import re
 import sys
 
 sys.path.insert(0, os.path.dirname(os.path.dirname(os.path.abspath(__file__))))
-from verif_static.core import run_check, AnalysisError  # noqa
+from verif_static.core import run_check, AnalysisError, REPO  # noqa
 from verif_static import model as M, symb as S  # noqa
 from verif_static.poly import Poly  # noqa
 
@@ -210,6 +210,56 @@ def rule_snapshot(chk):
     chk.floor('pair-symmetric equation uses in scheme groups', npair, 20)
 
 
+# who may write the per-thread pair arrays XIJ / VIJ / DWIJ / DWI / DWJ (they are computed once per pair and handed to every equation of the group for that pair):
+# confirmed by reading, one reason each - any other hook that stores into them changes what the equations after it see, by a factor that depends on the destination
+PAIR_ARRAY_WRITERS = {
+    ('pysph/sph/wc/kernel_correction.py', 'GradientCorrection', 'loop', 'DWIJ'): 'kernel-gradient correction: replaces DWIJ by the corrected gradient for the equations that follow, by design',
+    ('pysph/sph/wc/kernel_correction.py', 'MixedGradientCorrection', 'loop', 'DWIJ'): 'as GradientCorrection',
+    ('pysph/sph/swe/basic.py', 'GradientCorrection', 'loop', 'DWJ'): 'corrects the source-side gradient for the shallow-water equations that follow, by design',
+    ('pysph/sph/wc/crksph.py', 'CRKSPH', 'loop', 'DWIJ'): 'CRKSPH replaces the gradient by the reproducing-kernel one, by design',
+    ('pysph/sph/wc/crksph.py', 'CRKSPHSymmetric', 'loop', 'DWIJ'): 'as CRKSPH (symmetrised form)',
+    ('pysph/sph/wc/crksph.py', 'CRKSPHSymmetric', 'loop', 'DWI'): 'as CRKSPH (symmetrised form)',
+    ('pysph/sph/wc/crksph.py', 'CRKSPHSymmetric', 'loop', 'DWJ'): 'as CRKSPH (symmetrised form)',
+    ('pysph/sph/gas_dynamics/basic.py', 'MPMAccelerations', 'loop', 'XIJ'): 'normalises XIJ for its own use; the shipped scheme puts it alone in its group',
+}
+
+
+def rule_pair_arrays_read_only(chk):
+    """the pair arrays are shared by all equations of a group for one pair: only the listed correctors store into them"""
+    import glob as _glob
+    S = ('XIJ', 'VIJ', 'DWIJ', 'DWI', 'DWJ')
+    seen, n = set(), 0
+    for p_ in sorted(_glob.glob(os.path.join(REPO, 'pysph/**/*.py'), recursive=True)):
+        if '/tests/' in p_ or '/examples/' in p_:
+            continue
+        rel = os.path.relpath(p_, REPO)
+        try:
+            t = M.py(rel)
+        except SyntaxError:
+            continue
+        for c in M.classes(t):
+            for fn in [f for f in c.body if isinstance(f, ast.FunctionDef)]:
+                params = [a.arg for a in fn.args.args]
+                if not any(x in S for x in params):
+                    continue
+                n += 1
+                for a in ast.walk(fn):
+                    tg = a.targets[0] if isinstance(a, ast.Assign) else a.target if isinstance(a, ast.AugAssign) else None
+                    if isinstance(tg, ast.Subscript) and isinstance(tg.value, ast.Name) and tg.value.id in S and tg.value.id in params:
+                        key = (rel, c.name, fn.name, tg.value.id)
+                        if key in seen:
+                            continue
+                        seen.add(key)
+                        chk.decide(key in PAIR_ARRAY_WRITERS, 'pair-arrays-read-only', '%s.%s:%s' % (c.name, fn.name, tg.value.id), node=a, file=rel, func='%s.%s' % (c.name, fn.name),
+                                   detail_bad='`%s`: %s is the per-thread array every equation of the group receives for this pair - the equations called after this one see it '
+                                              'multiplied by a factor of the destination particle, so their pair terms are no longer equal and opposite' % (U(a)[:60], tg.value.id),
+                                   detail_ok=PAIR_ARRAY_WRITERS.get(key, ''))
+    chk.floor('hooks that receive pair arrays', n, 100)
+    gone = sorted(k for k in PAIR_ARRAY_WRITERS if k not in seen)
+    for k in gone:
+        chk.note('listed writer of a pair array no longer writes it: %s.%s %s' % (k[1], k[2], k[3]))
+
+
 def main(chk):
     chk.explanation = ('For every momentum equation classified pair-symmetric in the anchored files, loop() is abstractly evaluated (if-conversion, '
                        'polynomial normal form with reciprocal / abs / max / indicator atoms) and the obligation swap(m_a * delta a_k) = -m_a * delta a_k is '
@@ -218,6 +268,7 @@ def main(chk):
                        'derived from its definition.  New accumulating classes must be classified (exit 2 otherwise).')
     rule_sigma_table(chk)
     rule_snapshot(chk)
+    rule_pair_arrays_read_only(chk)
     # summation density is positive wherever a particle sees itself: every kernel is non-negative inside its support and exactly zero outside
     # (pairs are accepted up to radius_scale*max(h_a, h_b) but W is evaluated with the mean h, so q beyond the cut-off does occur) - rules shared with C08
     import importlib.util
